@@ -68,6 +68,7 @@ JOBS = {
         {"cmd": "c08-h2", "race": False, "batches": {"quick": 4, "thorough": 12}, "timeout": {"quick": 600, "thorough": 2400},
          "fatal_is_violation": True, "mem_kb": 12000000},
         {"cmd": "c08-e2e", "race": True, "batches": {"quick": 2, "thorough": 4}, "timeout": {"quick": 600, "thorough": 2400}, "fatal_is_violation": True},
+        {"cmd": "c08-xe2e", "race": True, "batches": {"quick": 2, "thorough": 4}, "timeout": {"quick": 600, "thorough": 2400}, "fatal_is_violation": True},
     ],
     "C09": [
         {"cmd": "c09-engine", "race": True, "batches": {"quick": 2, "thorough": 6}, "timeout": {"quick": 900, "thorough": 3600}},
